@@ -610,6 +610,18 @@ theorem unsigned_owner_rejected_contract (e : Env) (code : List Transfer) (t : S
   · rw [ho] at hj; exact hno hj
   · exact hcode tr htr (by rw [hp, ho])
 
+/-- **No code, no exemption.**  A transaction that carries no contract request cannot use the
+contract exemption at all: if it is accepted, the owner of every spent output signed (directly or
+through its account). -/
+theorem no_code_no_exemption (e : Env) (t : SigLogic.Tx)
+    (h : verifyTxNoCode (fun t => byContract t.contractInputs) e t = true) :
+    ∀ i ∈ t.inputs, Justified e t i.owner := by
+  unfold verifyTxNoCode at h
+  simp only [Bool.and_eq_true, List.isEmpty_iff] at h
+  obtain ⟨⟨hv, hc⟩, _⟩ := h
+  intro i hi
+  exact (accept_implies_signed_with _ e t hv).2.2.2.2.2 i hi (by simp [byContract, hc])
+
 /-- an exemption keyed by the output reference alone (txid, offset), as `isContractUtxoEffective`
 compares -/
 def byRefOnly (cins : List Input) (i : Input) : Bool := cins.any (fun c => c.txid == i.txid && c.offset == i.offset)
